@@ -92,33 +92,28 @@ Definition cwf (r : conn) : Prop :=
 Definition sd_active (p : spc) : bool :=
   match p with SStopSet | SLnClosed | SLoop | SReadServing | SReadOpen | SWait => true | _ => false end.
 
-Definition past_close_listeners (p : spc) : bool :=
-  match p with SNotCalled | SStopSet => false | _ => true end.
+(* ShutdownWithContext is past closeListenersLocked and still running *)
+Definition post_ln (p : spc) : bool :=
+  match p with SLnClosed | SLoop | SReadServing | SReadOpen | SWait => true | _ => false end.
 
-Definition past_close_done (p : spc) : bool :=
-  match p with SLoop | SReadServing | SReadOpen | SWait | SReturnedErr => true | _ => false end.
+Lemma sd_running_active s : sd_running s = sd_active (sd s).
+Proof. reflexivity. Qed.
 
+(* ---- the counting invariant (any number of Serve / Shutdown cycles) --------------------------------------------------- *)
 Record inv (s : st) : Prop := mkInv {
   i_open : open s = sumf cnt_open (conns s);
   i_serving : serving s = sumf (fun lp => b2z (lrunning lp)) (loops s);
   i_loopid : Forall (fun r => (loopid r < length (loops s))%nat) (conns s);
   i_acc : forall k lp, nth_error (loops s) k = Some lp ->
             sumf (acc_at k) (conns s) = b2z (lbusy lp) /\ (lbusy lp = true -> lrunning lp = true);
-  i_ln : past_close_listeners (sd s) = true -> (loops s <> [] -> Forall (fun lp => lnopen lp = false) (loops s));
+  i_ln : post_ln (sd s) = true -> Forall (fun lp => lnopen lp = false /\ inln lp = false) (loops s);
   i_ro : sd s = SReadOpen -> serving s = 0;
-  i_ret : sd s = SReturnedNil -> Forall (fun r => pc r = CClosed) (conns s) /\ Forall (fun lp => lrunning lp = false) (loops s);
-  i_done : past_close_done (sd s) = true \/ (sd s = SReturnedNil /\ loops s <> []) -> doneClosed s = true;
   i_stop : stop s = sd_active (sd s);
-  i_wf : Forall cwf (conns s);
-  i_noloops : loops s = [] -> conns s = [] /\ (sd s = SNotCalled \/ sd s = SReturnedNil)
+  i_wf : Forall cwf (conns s)
 }.
 
 Lemma inv_init : inv init.
-Proof.
-  constructor; cbn; auto; try discriminate.
-  - intros [|k] lp H; discriminate.
-  - intros [H|[H _]]; discriminate.
-Qed.
+Proof. constructor; cbn; auto; try discriminate. intros [|k] lp H; discriminate. Qed.
 
 Lemma b2z_range b : 0 <= b2z b <= 1.
 Proof. destruct b; cbn; lia. Qed.
@@ -129,44 +124,59 @@ Proof. unfold acc_at. destruct (pc r); try lia. destruct (Nat.eqb (loopid r) k);
 Lemma cnt_open_nonneg r : 0 <= cnt_open r.
 Proof. unfold cnt_open. destruct (pc r); lia. Qed.
 
+Lemma sumf_zero_all_conv {A} (f : A -> Z) l : (forall x, In x l -> f x = 0) -> sumf f l = 0.
+Proof. induction l as [|y l IH]; cbn [sumf]; intros H; [reflexivity|]. rewrite (H y (or_introl eq_refl)), IH; [reflexivity|]. intros x Hx. apply H. now right. Qed.
+
+(* no Serve call running and nothing counted in s.open: every connection is finished *)
+Lemma rest_from_counters s : inv s -> serving s = 0 -> open s = 0 ->
+  Forall (fun r => pc r = CClosed) (conns s) /\ Forall (fun lp => lrunning lp = false) (loops s).
+Proof.
+  intros I Hs0 Ho0. rewrite (i_serving _ I) in Hs0.
+  assert (Hrun : Forall (fun lp => lrunning lp = false) (loops s)).
+  { apply Forall_forall. intros lp Hin.
+    pose proof (sumf_zero_all (fun lp => b2z (lrunning lp)) (loops s) (fun x => proj1 (b2z_range (lrunning x))) Hs0 lp Hin) as H.
+    cbn in H. destruct (lrunning lp); [discriminate H|reflexivity]. }
+  split; [|exact Hrun].
+  assert (Ho : sumf cnt_open (conns s) = 0) by (rewrite <- (i_open _ I); lia).
+  apply Forall_forall. intros r Hin.
+  pose proof (sumf_zero_all cnt_open (conns s) cnt_open_nonneg Ho r Hin) as Hc.
+  unfold cnt_open in Hc. destruct (pc r) eqn:Ep; try discriminate Hc; [|reflexivity]. exfalso.
+  pose proof (i_loopid _ I) as Hf. rewrite Forall_forall in Hf. specialize (Hf _ Hin).
+  destruct (nth_error (loops s) (loopid r)) as [lp|] eqn:El; [|apply nth_error_None in El; lia].
+  destruct (i_acc _ I _ _ El) as [Ha Hb].
+  assert (Hge : 1 <= sumf (acc_at (loopid r)) (conns s)).
+  { pose proof (sumf_pos_in (acc_at (loopid r)) (conns s) r (acc_at_nonneg (loopid r)) Hin) as H.
+    unfold acc_at at 1 in H. rewrite Ep, Nat.eqb_refl in H. exact H. }
+  rewrite Ha in Hge. destruct (lbusy lp) eqn:Eb; [|cbn in Hge; lia].
+  specialize (Hb eq_refl). rewrite Forall_forall in Hrun. rewrite (Hrun lp) in Hb by (eapply nth_error_In; eauto). discriminate.
+Qed.
+
 (* a step of connection thread c that is not the acceptor's *)
 Lemma inv_conn s c r r' oo :
   inv s -> nth_error (conns s) c = Some r -> loopid r' = loopid r ->
   (forall k, acc_at k r' = acc_at k r) ->
-  oo = open s - cnt_open r + cnt_open r' ->
-  (pc r = CClosed -> pc r' = CClosed) -> cwf r' ->
-  inv (mkSt (stop s) (doneClosed s) (serving s) oo (now s) (sd s) (upd (conns s) c r') (loops s)).
+  oo = open s - cnt_open r + cnt_open r' -> cwf r' ->
+  inv (mkSt (stop s) (dn s) (serving s) oo (now s) (sd s) (upd (conns s) c r') (loops s)).
 Proof.
-  intros I Hn Hl Hp Ho Hc Hw. constructor; cbn [stop doneClosed serving open now sd conns loops].
+  intros I Hn Hl Hp Ho Hw. constructor; cbn [stop dn serving open now sd conns loops].
   - rewrite (sumf_upd _ _ _ _ _ Hn). rewrite <- (i_open _ I). exact Ho.
   - apply (i_serving _ I).
   - apply Forall_upd; [apply (i_loopid _ I)|]. rewrite Hl. exact (Forall_nth _ _ _ _ (i_loopid _ I) Hn).
-  - intros k lp Hk. rewrite (sumf_upd _ _ _ _ _ Hn). destruct (i_acc _ I _ _ Hk) as [H1 H2]. split; [|exact H2].
-    rewrite Hp. lia.
+  - intros k lp Hk. rewrite (sumf_upd _ _ _ _ _ Hn). destruct (i_acc _ I _ _ Hk) as [H1 H2]. split; [|exact H2]. rewrite Hp. lia.
   - apply (i_ln _ I).
   - apply (i_ro _ I).
-  - intros Hs. destruct (i_ret _ I Hs) as [H1 H2]. split; [|exact H2]. apply Forall_upd; [exact H1|].
-    apply Hc. exact (Forall_nth _ _ _ _ H1 Hn).
-  - apply (i_done _ I).
   - apply (i_stop _ I).
   - apply Forall_upd; [apply (i_wf _ I)|exact Hw].
-  - intros Hl0. destruct (i_noloops _ I Hl0) as [Hc0 Hs]. rewrite Hc0 in Hn. destruct c; discriminate.
 Qed.
 
-(* a step of the Shutdown thread or of the clock that leaves connections and loops alone *)
-Lemma inv_sd s st' dc p :
+(* a step of the Shutdown thread or of the clock that leaves connections, loops and counters alone *)
+Lemma inv_sd s st' d p :
   inv s ->
-  (past_close_listeners p = true -> Forall (fun lp => lnopen lp = false) (loops s)) ->
+  (post_ln p = true -> Forall (fun lp => lnopen lp = false /\ inln lp = false) (loops s)) ->
   (p = SReadOpen -> serving s = 0) ->
-  (p = SReturnedNil -> Forall (fun r => pc r = CClosed) (conns s) /\ Forall (fun lp => lrunning lp = false) (loops s)) ->
-  (past_close_done p = true \/ (p = SReturnedNil /\ loops s <> []) -> dc = true) ->
   st' = sd_active p ->
-  (loops s = [] -> p = SNotCalled \/ p = SReturnedNil) ->
-  forall t, inv (mkSt st' dc (serving s) (open s) t p (conns s) (loops s)).
-Proof.
-  intros I H1 H2 H3 H4 H5 H6 t. constructor; cbn [stop doneClosed serving open now sd conns loops]; auto; try apply I.
-  intros Hl. destruct (i_noloops _ I Hl). auto.
-Qed.
+  forall t, inv (mkSt st' d (serving s) (open s) t p (conns s) (loops s)).
+Proof. intros I H1 H2 H3 t. constructor; cbn [stop dn serving open now sd conns loops]; auto; apply I. Qed.
 
 (* ---- preservation --------------------------------------------------------------------------------------------------- *)
 Ltac conn_case I Hstep c :=
@@ -175,27 +185,23 @@ Ltac conn_case I Hstep c :=
   let Hwf := fresh "Hwf" in
   pose proof (Forall_nth _ _ _ _ (i_wf _ I) Hn) as Hwf;
   unfold cwf in Hwf;
-  destruct r as [p lid im iv ts sc cc infl buf unf hjk stt del lst lsc abn];
+  destruct r as [p lid im iv ts sc cc infl buf unf hjk stt del lst lsc abn cdn];
   unfold set_pc, flush_exit, exit_loop in Hstep;
-  cbn [pc loopid inmap ival tstart srvClosed cliClosed inflight buffered unflushed hijack started delivered lost lostc abandoned] in Hstep, Hwf.
+  cbn [pc loopid inmap ival tstart srvClosed cliClosed inflight buffered unflushed hijack started delivered lost lostc abandoned cdone] in Hstep, Hwf.
 
 Ltac brk_h H := repeat match type of H with
    | context[if ?b then _ else _] => destruct b eqn:?
    end.
 
-Ltac fin I Hn := unfold set_conns; eapply inv_conn; [exact I|exact Hn|reflexivity|(let k := fresh in intros k; unfold acc_at; cbn; reflexivity)|unfold cnt_open; cbn; try lia; try (match goal with |- context[match ?q with _ => _ end] => destruct q end; lia)|cbn; try discriminate; auto|
+Ltac fin I Hn := unfold set_conns; eapply inv_conn; [exact I|exact Hn|reflexivity|(let k := fresh in intros k; unfold acc_at; cbn; reflexivity)|unfold cnt_open; cbn; try lia; try (match goal with |- context[match ?q with _ => _ end] => destruct q end; lia)|
    unfold cwf, inprog in *; cbn in *; repeat match goal with |- context[if ?b then _ else _] => destruct b end; lia].
-
-Lemma sumf_zero_all_conv {A} (f : A -> Z) l : (forall x, In x l -> f x = 0) -> sumf f l = 0.
-Proof. induction l as [|y l IH]; cbn [sumf]; intros H; [reflexivity|]. rewrite (H y (or_introl eq_refl)), IH; [reflexivity|]. intros x Hx. apply H. now right. Qed.
 
 Lemma inv_step cf s l s' : inv s -> step cf s l = Some s' -> inv s'.
 Proof.
   intros I Hstep. destruct l; cbn [step] in Hstep.
   - (* LServeStart *)
-    destruct (shutdown_begun s) eqn:Eb; [discriminate|]. injection Hstep as <-.
-    assert (Es : sd s = SNotCalled) by (unfold shutdown_begun in Eb; destruct (sd s); try discriminate; reflexivity).
-    constructor; cbn [stop doneClosed serving open now sd conns loops].
+    destruct (sd_running s) eqn:Eb; [discriminate|]. injection Hstep as <-. rewrite sd_running_active in Eb.
+    constructor; cbn [stop dn serving open now sd conns loops].
     + apply (i_open _ I).
     + rewrite sumf_app. cbn. rewrite (i_serving _ I). lia.
     + eapply Forall_impl; [|exact (i_loopid _ I)]. intros r Hr. cbn beta in Hr. rewrite app_length. cbn [length]. lia.
@@ -203,18 +209,15 @@ Proof.
       cbn. split; [|discriminate]. apply sumf_zero_all_conv. intros r Hin. unfold acc_at.
       pose proof (i_loopid _ I) as Hf. rewrite Forall_forall in Hf. specialize (Hf _ Hin).
       destruct (pc r); try reflexivity. destruct (Nat.eqb (loopid r) (length (loops s))) eqn:E; [apply Nat.eqb_eq in E; lia|reflexivity].
-    + rewrite Es. discriminate.
-    + rewrite Es. discriminate.
-    + rewrite Es. discriminate.
-    + rewrite Es. intros [H|[H _]]; discriminate.
+    + intros Hp. destruct (sd s); discriminate.
+    + intros Hp. rewrite Hp in Eb. discriminate.
     + apply (i_stop _ I).
     + apply (i_wf _ I).
-    + intros H. destruct (loops s); discriminate.
   - (* LAccept *)
     destruct (nth_error (loops s) k) as [lp|] eqn:Hk; [|discriminate].
     destruct (lrunning lp && negb (lbusy lp) && lnopen lp) eqn:E; [|discriminate]. injection Hstep as <-.
     apply andb_true_iff in E as [E E3]. apply andb_true_iff in E as [E1 E2]. apply negb_true_iff in E2.
-    constructor; cbn [stop doneClosed serving open now sd conns loops].
+    constructor; cbn [stop dn serving open now sd conns loops].
     + rewrite sumf_app. cbn. rewrite (i_open _ I). lia.
     + rewrite (sumf_upd _ _ _ _ _ Hk). cbn. rewrite E1. rewrite (i_serving _ I). cbn. lia.
     + rewrite length_upd. apply Forall_app. split; [apply (i_loopid _ I)|]. constructor; [|constructor]. cbn. apply nth_error_Some. congruence.
@@ -222,24 +225,19 @@ Proof.
       apply loops_upd_lookup in Hk' as [(-> & -> & _)|(Hne & Hk')].
       * rewrite Nat.eqb_refl. destruct (i_acc _ I _ _ Hk) as [Ha _]. rewrite Ha, E2. cbn. split; [lia|reflexivity].
       * destruct (Nat.eqb k k') eqn:E; [apply Nat.eqb_eq in E; congruence|]. destruct (i_acc _ I _ _ Hk') as [Ha Hb]. split; [lia|exact Hb].
-    + intros Hp Hne. exfalso. assert (Hl : loops s <> []) by (intros H; rewrite H in Hk; destruct k; discriminate).
-      pose proof (i_ln _ I Hp Hl) as Hf. rewrite Forall_forall in Hf. rewrite (Hf lp) in E3 by (eapply nth_error_In; eauto). discriminate.
+    + intros Hp. exfalso. pose proof (i_ln _ I Hp) as Hf. rewrite Forall_forall in Hf. destruct (Hf lp (nth_error_In _ _ Hk)) as [H _]. congruence.
     + apply (i_ro _ I).
-    + intros Hs. destruct (i_ret _ I Hs) as [_ Hr]. rewrite Forall_forall in Hr. rewrite (Hr lp) in E1 by (eapply nth_error_In; eauto). discriminate.
-    + intros H. apply (i_done _ I). destruct H as [H|[H1 H2]]; [left; exact H|right; split; [exact H1|]]. intros H; rewrite H in Hk; destruct k; discriminate.
     + apply (i_stop _ I).
     + apply Forall_app. split; [apply (i_wf _ I)|]. constructor; [|constructor]. unfold cwf, inprog. cbn. lia.
-    + intros H. exfalso. assert (length (upd (loops s) k (mkLoop true true (lnopen lp))) = 0%nat) by (rewrite H; reflexivity).
-      rewrite length_upd in H0. destruct (loops s); [destruct k; discriminate|discriminate].
   - (* LOpenInc *)
     conn_case I Hstep c. destruct p; try discriminate Hstep.
     destruct (nth_error (loops s) lid) as [lp|] eqn:Hk; [|discriminate]. injection Hstep as <-.
     destruct (i_acc _ I _ _ Hk) as [Ha Hb].
-    assert (Hin : In (mkConn CAccepted lid im iv ts sc cc infl buf unf hjk stt del lst lsc abn) (conns s)) by (eapply nth_error_In; eauto).
+    assert (Hin : In (mkConn CAccepted lid im iv ts sc cc infl buf unf hjk stt del lst lsc abn cdn) (conns s)) by (eapply nth_error_In; eauto).
     assert (Hbusy : lbusy lp = true).
     { pose proof (sumf_pos_in (acc_at lid) (conns s) _ (acc_at_nonneg lid) Hin) as H. unfold acc_at at 1 in H. cbn in H. rewrite Nat.eqb_refl in H.
       rewrite Ha in H. destruct (lbusy lp); [reflexivity|cbn in H; lia]. }
-    constructor; cbn [stop doneClosed serving open now sd conns loops].
+    constructor; cbn [stop dn serving open now sd conns loops].
     + rewrite (sumf_upd _ _ _ _ _ Hn). rewrite (i_open _ I). unfold cnt_open. cbn. lia.
     + rewrite (sumf_upd _ _ _ _ _ Hk). cbn. rewrite (i_serving _ I). lia.
     + rewrite length_upd. apply Forall_upd; [apply (i_loopid _ I)|]. cbn. exact (Forall_nth _ _ _ _ (i_loopid _ I) Hn).
@@ -247,36 +245,27 @@ Proof.
       apply loops_upd_lookup in Hk' as [(-> & -> & _)|(Hne & Hk')].
       * rewrite Nat.eqb_refl. rewrite Ha, Hbusy. cbn. split; [lia|discriminate].
       * destruct (Nat.eqb lid k') eqn:E; [apply Nat.eqb_eq in E; congruence|]. destruct (i_acc _ I _ _ Hk') as [Ha' Hb']. split; [lia|exact Hb'].
-    + intros Hp Hne. assert (Hl : loops s <> []) by (intros H; rewrite H in Hk; destruct lid; discriminate).
-      pose proof (i_ln _ I Hp Hl) as Hf. apply Forall_upd; [exact Hf|]. cbn. rewrite Forall_forall in Hf. apply Hf. eapply nth_error_In; eauto.
+    + intros Hp. pose proof (i_ln _ I Hp) as Hf. apply Forall_upd; [exact Hf|]. cbn. rewrite Forall_forall in Hf. apply Hf. eapply nth_error_In; eauto.
     + apply (i_ro _ I).
-    + intros Hs. destruct (i_ret _ I Hs) as [Hr _]. rewrite Forall_forall in Hr. specialize (Hr _ Hin). discriminate.
-    + intros H. apply (i_done _ I). destruct H as [H|[H1 H2]]; [left; exact H|right; split; [exact H1|]]. intros H; rewrite H in Hk; destruct lid; discriminate.
     + apply (i_stop _ I).
     + apply Forall_upd; [apply (i_wf _ I)|]. unfold cwf, inprog in *. cbn in *. exact Hwf.
-    + intros H. exfalso. assert (length (upd (loops s) lid (mkLoop (lrunning lp) false (lnopen lp))) = 0%nat) by (rewrite H; reflexivity).
-      rewrite length_upd in H0. destruct (loops s); [destruct lid; discriminate|discriminate].
   - (* LAcceptFail *)
     destruct (nth_error (loops s) k) as [lp|] eqn:Hk; [|discriminate].
     destruct (lrunning lp && negb (lbusy lp) && negb (lnopen lp)) eqn:E; [|discriminate]. injection Hstep as <-.
     apply andb_true_iff in E as [E E3]. apply andb_true_iff in E as [E1 E2]. apply negb_true_iff in E2. apply negb_true_iff in E3.
-    assert (Hl : loops s <> []) by (intros H; rewrite H in Hk; destruct k; discriminate).
-    constructor; cbn [stop doneClosed serving open now sd conns loops].
+    constructor; cbn [stop dn serving open now sd conns loops].
     + apply (i_open _ I).
     + rewrite (sumf_upd _ _ _ _ _ Hk). cbn. rewrite E1. rewrite (i_serving _ I). cbn. lia.
     + rewrite length_upd. apply (i_loopid _ I).
     + intros k' lp' Hk'. apply loops_upd_lookup in Hk' as [(-> & -> & _)|(Hne & Hk')]; [|exact (i_acc _ I _ _ Hk')].
       destruct (i_acc _ I _ _ Hk) as [Ha _]. rewrite Ha, E2. cbn. split; [reflexivity|discriminate].
-    + intros Hp Hne. apply Forall_upd; [exact (i_ln _ I Hp Hl)|reflexivity].
+    + intros Hp. pose proof (i_ln _ I Hp) as Hf. apply Forall_upd; [exact Hf|]. cbn. split; [reflexivity|].
+      rewrite Forall_forall in Hf. apply (Hf lp). eapply nth_error_In; eauto.
     + intros Hs. pose proof (i_ro _ I Hs) as H0. rewrite (i_serving _ I) in H0.
       pose proof (sumf_zero_all (fun lp => b2z (lrunning lp)) (loops s) (fun x => proj1 (b2z_range (lrunning x))) H0 lp (nth_error_In _ _ Hk)) as H.
       cbn in H. rewrite E1 in H. discriminate.
-    + intros Hs. destruct (i_ret _ I Hs) as [Hr1 Hr2]. split; [exact Hr1|]. apply Forall_upd; [exact Hr2|reflexivity].
-    + intros H. apply (i_done _ I). destruct H as [H|[H1 H2]]; [left; exact H|right; split; [exact H1|exact Hl]].
     + apply (i_stop _ I).
     + apply (i_wf _ I).
-    + intros H. exfalso. assert (length (upd (loops s) k (mkLoop false false false)) = 0%nat) by (rewrite H; reflexivity).
-      rewrite length_upd in H0. destruct (loops s); [destruct k; discriminate|discriminate].
   - (* LRegIdle *) conn_case I Hstep c. destruct p; try discriminate Hstep. injection Hstep as <-. fin I Hn.
   - (* LSetDeadline *) conn_case I Hstep c. destruct p; try discriminate Hstep. brk_h Hstep; injection Hstep as <-; fin I Hn.
   - (* LPeekOk *) conn_case I Hstep c. destruct p; try discriminate Hstep. brk_h Hstep; try discriminate Hstep; injection Hstep as <-; fin I Hn.
@@ -294,42 +283,33 @@ Proof.
   - (* LUnregIdle *) conn_case I Hstep c. destruct p; try discriminate Hstep. injection Hstep as <-. fin I Hn.
   - (* LOpenDec *) conn_case I Hstep c. destruct p; try discriminate Hstep. injection Hstep as <-. fin I Hn.
   - (* LSetStop *)
-    destruct (sd s) eqn:Es; try discriminate Hstep. destruct (loops s) as [|lp0 ls] eqn:El.
-    + injection Hstep as <-. unfold set_sd. destruct (i_noloops _ I El) as [Hc _]. pose proof (i_stop _ I) as Hst. rewrite Es in Hst. cbn in Hst.
-      rewrite Hst. apply inv_sd; auto; try discriminate.
-      * intros _. rewrite El. constructor.
-      * intros _. rewrite Hc, El. split; constructor.
-      * intros [H|[_ H]]; [discriminate|]. rewrite El in H. congruence.
-    + injection Hstep as <-. rewrite <- El. apply inv_sd; auto; try discriminate.
-      * intros [H|[H _]]; discriminate.
-      * intros H. rewrite El in H. discriminate.
+    destruct (sd_running s) eqn:Er; [discriminate|]. rewrite sd_running_active in Er.
+    pose proof (i_stop _ I) as Hst. rewrite Er in Hst.
+    destruct (existsb inln (loops s)); injection Hstep as <-.
+    + apply inv_sd; auto; discriminate.
+    + unfold set_sd. rewrite Hst. apply inv_sd; auto; discriminate.
   - (* LCloseListeners *)
     destruct (sd s) eqn:Es; try discriminate Hstep. injection Hstep as <-.
     pose proof (i_stop _ I) as Hst. rewrite Es in Hst. cbn in Hst.
-    constructor; cbn [stop doneClosed serving open now sd conns loops].
+    constructor; cbn [stop dn serving open now sd conns loops].
     + apply (i_open _ I).
     + rewrite (i_serving _ I). clear. induction (loops s) as [|x l IH]; cbn [sumf map]; [reflexivity|]. cbn [lrunning]. lia.
     + rewrite map_length. apply (i_loopid _ I).
     + intros k lp Hk. rewrite nth_error_map in Hk. destruct (nth_error (loops s) k) as [lp0|] eqn:E; [|discriminate].
       cbn in Hk. injection Hk as <-. cbn. exact (i_acc _ I _ _ E).
-    + intros _ _. apply Forall_forall. intros lp Hin. apply in_map_iff in Hin as (x & <- & _). reflexivity.
+    + intros _. apply Forall_forall. intros lp Hin. apply in_map_iff in Hin as (x & <- & _). split; reflexivity.
     + discriminate.
-    + discriminate.
-    + intros [H|[H _]]; discriminate.
     + exact Hst.
     + apply (i_wf _ I).
-    + intros Hl. destruct (loops s) eqn:El; [|discriminate]. destruct (i_noloops _ I El) as [_ [H|H]]; congruence.
   - (* LCloseDone *)
     destruct (sd s) eqn:Es; try discriminate Hstep. injection Hstep as <-.
     pose proof (i_stop _ I) as Hst. rewrite Es in Hst. cbn in Hst. rewrite Hst.
-    apply inv_sd; auto; try discriminate.
-    + intros _. destruct (loops s) eqn:El; [constructor|]. rewrite <- El. apply (i_ln _ I); [rewrite Es; reflexivity|congruence].
-    + intros Hl. destruct (i_noloops _ I Hl) as [_ [H|H]]; congruence.
+    apply inv_sd; auto; try discriminate. intros _. apply (i_ln _ I). rewrite Es. reflexivity.
   - (* LCloseIdle *)
     destruct (sd s) eqn:Es; try discriminate Hstep. injection Hstep as <-.
     assert (Hpc : forall t r, pc (close_if_idle t r) = pc r) by (intros t r; unfold close_if_idle; destruct (_ && _); reflexivity).
     assert (Hlid : forall t r, loopid (close_if_idle t r) = loopid r) by (intros t r; unfold close_if_idle; destruct (_ && _); reflexivity).
-    constructor; cbn [stop doneClosed serving open now sd conns loops].
+    constructor; cbn [stop dn serving open now sd conns loops].
     + rewrite sumf_map; [apply (i_open _ I)|]. intros r. unfold cnt_open. now rewrite Hpc.
     + apply (i_serving _ I).
     + apply Forall_forall. intros r Hin. apply in_map_iff in Hin as (x & <- & Hx). rewrite Hlid.
@@ -337,73 +317,35 @@ Proof.
     + intros k lp Hk. rewrite sumf_map; [exact (i_acc _ I _ _ Hk)|]. intros r. unfold acc_at. now rewrite Hpc, Hlid.
     + intros _. apply (i_ln _ I). rewrite Es. reflexivity.
     + discriminate.
-    + discriminate.
-    + intros _. apply (i_done _ I). left. rewrite Es. reflexivity.
     + pose proof (i_stop _ I) as Hst. rewrite Es in Hst. exact Hst.
     + apply Forall_forall. intros r Hin. apply in_map_iff in Hin as (x & <- & Hx).
       pose proof (i_wf _ I) as Hf. rewrite Forall_forall in Hf. specialize (Hf _ Hx).
       unfold close_if_idle. destruct (_ && _); [|exact Hf]. unfold cwf, inprog in *. cbn. exact Hf.
-    + intros Hl. destruct (i_noloops _ I Hl) as [_ [H|H]]; congruence.
   - (* LReadServing *)
     destruct (sd s) eqn:Es; try discriminate Hstep. injection Hstep as <-. unfold set_sd.
     pose proof (i_stop _ I) as Hst. rewrite Es in Hst. cbn in Hst. rewrite Hst.
-    assert (Hln : Forall (fun lp => lnopen lp = false) (loops s)).
-    { destruct (loops s) eqn:El; [constructor|]. rewrite <- El. apply (i_ln _ I); [rewrite Es; reflexivity|congruence]. }
-    assert (Hd : doneClosed s = true) by (apply (i_done _ I); left; rewrite Es; reflexivity).
-    destruct (serving s =? 0) eqn:E0.
-    + apply inv_sd; auto; try discriminate. lia. intros Hl. destruct (i_noloops _ I Hl) as [_ [H|H]]; congruence.
-    + apply inv_sd; auto; try discriminate. intros Hl. destruct (i_noloops _ I Hl) as [_ [H|H]]; congruence.
+    assert (Hln : Forall (fun lp => lnopen lp = false /\ inln lp = false) (loops s)) by (apply (i_ln _ I); rewrite Es; reflexivity).
+    destruct (serving s =? 0) eqn:E0; apply inv_sd; auto; try discriminate. lia.
   - (* LReadOpen *)
     destruct (sd s) eqn:Es; try discriminate Hstep.
     pose proof (i_stop _ I) as Hst. rewrite Es in Hst. cbn in Hst.
-    assert (Hln : Forall (fun lp => lnopen lp = false) (loops s)).
-    { destruct (loops s) eqn:El; [constructor|]. rewrite <- El. apply (i_ln _ I); [rewrite Es; reflexivity|congruence]. }
-    assert (Hd : doneClosed s = true) by (apply (i_done _ I); left; rewrite Es; reflexivity).
-    assert (Hnl : loops s = [] -> False) by (intros Hl; destruct (i_noloops _ I Hl) as [_ [H|H]]; congruence).
+    assert (Hln : Forall (fun lp => lnopen lp = false /\ inln lp = false) (loops s)) by (apply (i_ln _ I); rewrite Es; reflexivity).
     destruct (open s =? 0) eqn:E0; injection Hstep as <-.
-    + assert (Hall : Forall (fun r => pc r = CClosed) (conns s) /\ Forall (fun lp => lrunning lp = false) (loops s)).
-      { pose proof (i_ro _ I Es) as Hs0. rewrite (i_serving _ I) in Hs0.
-        assert (Hrun : Forall (fun lp => lrunning lp = false) (loops s)).
-        { apply Forall_forall. intros lp Hin.
-          pose proof (sumf_zero_all (fun lp => b2z (lrunning lp)) (loops s) (fun x => proj1 (b2z_range (lrunning x))) Hs0 lp Hin) as H.
-          cbn in H. destruct (lrunning lp); [discriminate H|reflexivity]. }
-        split; [|exact Hrun].
-        assert (Ho : sumf cnt_open (conns s) = 0) by (rewrite <- (i_open _ I); lia).
-        apply Forall_forall. intros r Hin.
-        pose proof (sumf_zero_all cnt_open (conns s) cnt_open_nonneg Ho r Hin) as Hc.
-        unfold cnt_open in Hc. destruct (pc r) eqn:Ep; try discriminate Hc; [|reflexivity]. exfalso.
-        pose proof (i_loopid _ I) as Hf. rewrite Forall_forall in Hf. specialize (Hf _ Hin).
-        destruct (nth_error (loops s) (loopid r)) as [lp|] eqn:El; [|apply nth_error_None in El; lia].
-        destruct (i_acc _ I _ _ El) as [Ha Hb].
-        assert (Hge : 1 <= sumf (acc_at (loopid r)) (conns s)).
-        { pose proof (sumf_pos_in (acc_at (loopid r)) (conns s) r (acc_at_nonneg (loopid r)) Hin) as H.
-          unfold acc_at at 1 in H. rewrite Ep, Nat.eqb_refl in H. exact H. }
-        rewrite Ha in Hge. destruct (lbusy lp) eqn:Eb; [|cbn in Hge; lia].
-        specialize (Hb eq_refl). rewrite Forall_forall in Hrun. rewrite (Hrun lp) in Hb by (eapply nth_error_In; eauto). discriminate. }
-      apply inv_sd; [exact I|intros _; exact Hln|discriminate|intros _; exact Hall|intros _; exact Hd|reflexivity|intros Hl; destruct (Hnl Hl)].
-    + unfold set_sd. rewrite Hst. apply inv_sd; auto; try discriminate. intros Hl; destruct (Hnl Hl).
+    + apply inv_sd; auto; discriminate.
+    + unfold set_sd. rewrite Hst. apply inv_sd; auto; discriminate.
   - (* LTicker *)
     destruct (sd s) eqn:Es; try discriminate Hstep. injection Hstep as <-. unfold set_sd.
     pose proof (i_stop _ I) as Hst. rewrite Es in Hst. cbn in Hst. rewrite Hst.
-    apply inv_sd; auto; try discriminate.
-    + intros _. destruct (loops s) eqn:El; [constructor|]. rewrite <- El. apply (i_ln _ I); [rewrite Es; reflexivity|congruence].
-    + intros _. apply (i_done _ I). left. rewrite Es. reflexivity.
-    + intros Hl. destruct (i_noloops _ I Hl) as [_ [H|H]]; congruence.
+    apply inv_sd; auto; try discriminate. intros _. apply (i_ln _ I). rewrite Es. reflexivity.
   - (* LCtxExpire *)
-    destruct (sd s) eqn:Es; try discriminate Hstep. injection Hstep as <-.
-    apply inv_sd; auto; try discriminate.
-    + intros _. destruct (loops s) eqn:El; [constructor|]. rewrite <- El. apply (i_ln _ I); [rewrite Es; reflexivity|congruence].
-    + intros _. apply (i_done _ I). left. rewrite Es. reflexivity.
-    + intros Hl. destruct (i_noloops _ I Hl) as [_ [H|H]]; congruence.
+    destruct (sd s) eqn:Es; try discriminate Hstep. injection Hstep as <-. apply inv_sd; auto; discriminate.
   - (* LSend *)
     conn_case I Hstep c. destruct cc; try discriminate Hstep. injection Hstep as <-. fin I Hn.
   - (* LClientClose *)
     conn_case I Hstep c. injection Hstep as <-. fin I Hn.
   - (* LTick *)
     destruct (d <? 0); [discriminate|]. injection Hstep as <-. rewrite (i_stop _ I).
-    apply inv_sd; [exact I| |apply (i_ro _ I)|apply (i_ret _ I)|apply (i_done _ I)|reflexivity|].
-    + intros Hp. destruct (loops s) eqn:El; [constructor|]. rewrite <- El. apply (i_ln _ I); [exact Hp|congruence].
-    + intros Hl. destruct (i_noloops _ I Hl) as [_ H]. exact H.
+    apply inv_sd; [exact I|apply (i_ln _ I)|apply (i_ro _ I)|reflexivity].
 Qed.
 
 Lemma inv_reach cf s : reach cf s -> inv s.
